@@ -536,6 +536,47 @@ impl Counted {
         }
     }
 }
+impl Counted {
+    /// read the value (one `load` event, like a comparison)
+    pub fn get(&self) -> usize {
+        op(self.site, self as *const _ as usize, "load", 0, 0, 0, || self.v as u64) as usize
+    }
+    /// read the value for a later comparison with the counter (one `load` event)
+    pub fn seen(&self) -> Seen {
+        Seen(self.get())
+    }
+    /// overwrite the value (one `store` event)
+    pub fn set(&mut self, x: usize) {
+        let (site, addr) = (self.site, self as *const _ as usize);
+        op(site, addr, "store", x as u64, 0, 0, || {
+            self.v = x;
+            0
+        });
+    }
+    /// `v = v.wrapping_add(x)` as one `add` event (result = old value), never panics
+    pub fn wrapping_inc(&mut self, x: usize) {
+        let (site, addr) = (self.site, self as *const _ as usize);
+        op(site, addr, "add", x as u64, 0, 0, || {
+            let old = self.v;
+            self.v = old.wrapping_add(x);
+            old as u64
+        });
+    }
+}
+/// `counter < n`, `counter > n`, ...: one `load` event per comparison
+impl PartialOrd<usize> for Counted {
+    fn partial_cmp(&self, other: &usize) -> Option<std::cmp::Ordering> {
+        Some(self.get().cmp(other))
+    }
+}
+/// a value that was read from a `Counted` (`Counted::seen`, one `load` event) and is compared with the counter
+/// later: `local == counter` – the value a `wait_while` predicate sees – is one `load` event per evaluation
+pub struct Seen(pub usize);
+impl PartialEq<Counted> for Seen {
+    fn eq(&self, other: &Counted) -> bool {
+        other.get() == self.0
+    }
+}
 impl PartialEq<usize> for Counted {
     fn eq(&self, other: &usize) -> bool {
         op(self.site, self as *const _ as usize, "load", 0, 0, 0, || self.v as u64) == *other as u64
